@@ -126,7 +126,7 @@ class FontModel:
     font with the Identity-H encoding (two-byte codes = CIDs, /W and /DW)."""
 
     def __init__(self, resname: str, fontname: str, first: int, widths: List[int], missing: int, descent: int,
-                 cid_widths: Optional[Dict[int, int]] = None, dw: int = 1000) -> None:
+                 cid_widths: Optional[Dict[int, int]] = None, dw: int = 1000, wscale: Any = None) -> None:
         self.resname = resname
         self.fontname = fontname
         self.first = first
@@ -136,14 +136,16 @@ class FontModel:
         self.multibyte = cid_widths is not None
         self.cid_widths = cid_widths or {}
         self.dw = dw
+        # glyph space -> text space: 1/1000 except for a Type 3 font, whose /FontMatrix says (9.6.5)
+        self.wscale = F(1, 1000) if wscale is None else F(wscale)
 
     def w0(self, code: int) -> F:
         if self.multibyte:
             return F(self.cid_widths.get(code, self.dw)) / 1000
         i = code - self.first
         if 0 <= i < len(self.widths):
-            return F(self.widths[i]) / 1000
-        return F(self.missing) / 1000
+            return F(self.widths[i]) * self.wscale
+        return F(self.missing) * self.wscale
 
     def codes(self, s: bytes) -> List[int]:
         """Split a shown string into character codes (ISO 32000-1 9.7.6.2 for Identity-H: two bytes each)."""
